@@ -116,6 +116,28 @@ Theorem C19_vocabulary_control_fields : forall cfg b, client_vocabulary cfg b ->
   b = nil \/ exists h, head2 b = Some h /\ In h vocabulary_heads.
 Proof. exact vocabulary_control_fields. Qed.
 
+(* the chain event by event: once the query found nothing dangling, the VERY NEXT event is the end-of-day request, on the
+   connection the query was answered on; a reported pre-authorisation is reversed first (next event: the reversal of exactly
+   that receipt number), and once the terminal completed the reversal the next event is the end-of-day request *)
+Theorem C19_chain_next_event_end_of_day : forall cfg w w1, get_pending cfg w = (ROk [], w1) ->
+  exists id, w_cur w1 = Some id /\
+    first_new_event w1 (snd (eod_exchange cfg w1)) (EWrite id (w_now w1) (end_of_day_req cfg)).
+Proof. exact idle_chain_then_requests_end_of_day. Qed.
+Theorem C19_chain_next_event_reversal : forall cfg w p w1, get_pending cfg w = (ROk [p], w1) ->
+  exists id, w_cur w1 = Some id /\
+    first_new_event w1 (snd (cancel_by_receipt cfg p w1)) (EWrite id (w_now w1) (reversal_req cfg p)).
+Proof. exact idle_chain_reverses_the_reported_one. Qed.
+Theorem C19_chain_after_reversal_end_of_day : forall cfg p w1 u w2, cancel_by_receipt cfg p w1 = (ROk u, w2) ->
+  exists id, w_cur w2 = Some id /\
+    first_new_event w2 (snd (eod_exchange cfg w2)) (EWrite id (w_now w2) (end_of_day_req cfg)).
+Proof. exact idle_chain_after_reversal_requests_end_of_day. Qed.
+(* "at once": the completed cancel hands over a live connection and the query is the next event on it *)
+Theorem C19_completed_cancel_then_queries : forall cfg st w rn w1 u, cancel_by_receipt cfg rn w = (ROk u, w1) ->
+  exists id, w_cur w1 = Some id /\ exists req : list N, req <> nil /\
+    first_new_event w1 (snd (end_of_day cfg st w1)) (EWrite id (w_now w1) req) /\
+    forall r, dec_cmd FUEL (cmd_of "zvt::packets::PartialReversal") (req ++ r) = Ok (pending_query_value, r).
+Proof. exact completed_cancel_then_queries. Qed.
+
 (* non-vacuity: a state with two open transactions meets the hypotheses, and sent_in does separate logs *)
 Example C19_ex_busy_state : let st := {| s_txs := [([65], 7); ([66], 8)]; s_max := 2 |} in
   assoc_tok [65] (s_txs st) = Some 7 /\ remove_tok [65] (s_txs st) = [([66], 8)].
@@ -148,3 +170,7 @@ Print Assumptions C19_busy_cancel_vocabulary.
 Print Assumptions C19_cancel_vocabulary.
 Print Assumptions C19_history_vocabulary.
 Print Assumptions C19_vocabulary_control_fields.
+Print Assumptions C19_chain_next_event_end_of_day.
+Print Assumptions C19_chain_next_event_reversal.
+Print Assumptions C19_chain_after_reversal_end_of_day.
+Print Assumptions C19_completed_cancel_then_queries.
